@@ -835,6 +835,8 @@ class AnsiString:
                     codes_str = optimized_codes_str
             if idx == 0 and reset_start:
                 codes_str = ansi_sep.join([str(AnsiParam.RESET.value), codes_str])
+                # The reset must be written even when there is nothing else to write
+                apply_to_out_str = True
             # Apply these settings
             if apply_to_out_str:
                 out_str += ansi_graphic_rendition_format.format(codes_str)
